@@ -760,6 +760,15 @@ func (f *frame) typeAssert(x *ssa.TypeAssert) error {
 	f.e.Defs.noteBox(x.AssertedType, s)
 	ok := Eq(App("typeof", SInt, v), f.e.ifaceTag(x.AssertedType))
 	val := App("un"+boxName(x.AssertedType), s, v)
+	if strings.HasPrefix(v.Op, "box.") {
+		// the dynamic type is syntactically known
+		if v.Op == boxName(x.AssertedType) {
+			ok = TTrue
+			val = v.Args[0]
+		} else {
+			ok = TFalse
+		}
+	}
 	if x.CommaOk {
 		z, err := f.e.zero(x.AssertedType)
 		if err != nil {
